@@ -37,6 +37,63 @@ FENCE_ROWS = {
 }
 
 
+def clause5(P, res):
+    """liveness re-check between registration and park (sync counterpart of C06-6)"""
+    import re
+    from rules import c06
+    rid = "C05-5"
+    res.rule(rid, "a parked thread has looked for a disconnect after registering: at every fence-protocol park site of a channel, between the registration with the "
+                  "notifier and the park something observes whether the other side is still there (dropped flag, handle count, cursor list, or a callee that can "
+                  "answer Closed/Disconnected) — the closer wakes only waiters that are already registered, so a disconnect that lands before the registration is "
+                  "only noticed by this re-check")
+    sr = c06.StateReads(P)
+    n = 0
+    for b, parks in pr.park_sites(P):
+        if b.id in pr.PARK_WRAPPERS:
+            continue
+        spec = pr.spec_for(b.id)
+        if spec is None or spec.get("prop", "C05") != "C05" or spec["kind"] != "fence":
+            continue
+        regs = pr._pos(b, spec["reg"])
+        for k in parks:
+            rs = [r for r in regs if k.pos in b.pos_reach_set(r.pos)]
+            if not rs:
+                continue
+            n += 1
+            key = f"{b.id}:park@{k.loc.rsplit(':', 1)[-1]}" if len(parks) > 1 else b.id
+            live = []
+            for r in rs:
+                after = b.pos_reach_set(r.pos)
+                for e in b.calls():
+                    if e.pos == r.pos or e.pos not in after or k.pos not in b.pos_reach_set(e.pos, removed=frozenset([r.pos])):
+                        continue
+                    ll = False
+                    if e.is_atomic and e.method != "store":
+                        ll = bool(e.args and c06.LIVE6.search(b.path_of_operand(e.args[0])))
+                    elif (e.callee_resolved or "").startswith("fibre::") and not (e.method or "").startswith(("register", "unregister")):
+                        ll = sr(e.callee_resolved)[1]
+                    if re.search(r"^((senders|receivers)_alive|is_closed|is_disconnected)$", e.method or ""):
+                        ll = True
+                    if e.method == "is_empty" and e.args and "tails" in b.path_of_operand(e.args[0]):
+                        ll = True
+                    if ll:
+                        live.append(e)
+                for ev in b.events:
+                    if ev.kind == "assign" and ev.data["r"]["k"] in ("use", "bin") and ev.pos in after and k.pos in b.pos_reach_set(ev.pos, removed=frozenset([r.pos])):
+                        for kk in ("o", "a", "b"):
+                            o = ev.data["r"].get(kk)
+                            pl = __import__("mir").op_place(o) if isinstance(o, dict) else None
+                            if pl and pl[1] and c06.LIVE6.search(b.path_of_place(pl)):
+                                live.append(ev)
+            if live:
+                res.holds(rid, key, f"liveness observed at {live[0].loc} between registration and park", where=k.loc)
+            else:
+                res.violated(rid, key, f"between registering at {rs[0].loc} and parking at {k.loc} nothing looks at whether the other side is still there: a disconnect that "
+                             "happened just before the registration woke nobody, and this thread now sleeps forever", where=k.loc)
+    if n < 15:
+        res.violated(rid, "fence-park-sites", f"expected >= 15 fence-protocol park sites, found {n}")
+
+
 def clause2(P, res):
     import re
     from rules import common
@@ -119,4 +176,5 @@ def run(P, ctx):
     clause2(P, res)
     clause3(P, res)
     clause4(P, res)
+    clause5(P, res)
     return res
